@@ -1309,6 +1309,12 @@ impl<'t, 'c> Gen<'t, 'c> {
                 let sum = b(BinOp::Add, lit_i(1), Expr::Call(cf, vec![lit_i(1), lit_i(2)]));
                 vec![Stmt::Assign(cv.z.clone(), lit_i(0)), Stmt::Assign(cv.sres.clone(), b(BinOp::Add, sum, b(BinOp::Div, lit_i(10), ld(&cv.z))))]
             }
+            7 => {
+                // GET / PUT with record number 0 or below: Bad record number (63); needs the RANDOM file #3 of the prelude
+                let bad = *self.t.pick(&[0i64, -1]);
+                let text = if self.t.chance(1, 2) { "GET #3, {v}" } else { "PUT #3, {v}" };
+                vec![Stmt::Assign(cv.n.clone(), lit_i(bad)), Stmt::Opaque { text: text.to_string(), var: Some(cv.n.clone()), bad: vec![0, -1], code: 63 }]
+            }
             _ => vec![Stmt::Read(vec![cv.small.clone()])],
         }
     }
@@ -1450,6 +1456,12 @@ impl<'t, 'c> Gen<'t, 'c> {
         let mut main: Vec<Stmt> = vec![];
         main.push(Stmt::Dim(Dim { var: arr, name: "ARR%".into(), bounds: vec![(0, 2)], explicit_lower: false, sty: STy::B(Ty::Int), extended: false, shared: false, redim: 0 }));
         main.push(Stmt::Assign(sentinel.clone(), lit_i(77)));
+        // a RANDOM file on handle 3 (for failing GET / PUT statements)
+        let random_file = self.t.chance(1, 3);
+        if random_file {
+            main.push(Stmt::Opaque { text: "OPEN \"c05r.tmp\" FOR RANDOM AS #3 LEN = 4".into(), var: None, bad: vec![], code: 0 });
+            main.push(Stmt::Opaque { text: "FIELD #3, 4 AS ZF$".into(), var: None, bad: vec![], code: 0 });
+        }
         // optionally: subprograms whose bodies hold a failing statement (handled by the module-level handler)
         let mut sub_ids: Vec<usize> = vec![];
         let mut extra_routines: Vec<Stmt> = vec![];
@@ -1610,6 +1622,9 @@ impl<'t, 'c> Gen<'t, 'c> {
                     }
                     if kind == 4 {
                         has_data = true;
+                    }
+                    if random_file && self.t.chance(1, 6) {
+                        kind = 7;
                     }
                     let f = self.failing(&cv, kind);
                     let e = self.enclose(f);
